@@ -18,8 +18,8 @@ Cases == [bounds : {"EXTERIOR", "ADIABATIC"}, tilt : {"TOP", "SIDE", "BOTTOM"}, 
          next : {"none", "dangling", "C", "U", "N"}, vent : {"own", "global", "none"}, depth : {0}, perim : {FALSE}]
    \cup [bounds : {"GROUND"}, tilt : {"TOP", "SIDE", "BOTTOM"}, stack : DOMAIN Stacks_, this : {"C"}, next : {"none"},
          vent : {"none"}, depth : {0, 50, 150, 300, 400}, perim : BOOLEAN]
-WinCases == [ff : {0, 10, 20, 50, 100}, du : {0, 10, 25, 50}, ug : {60, 110, 320, 570}, uf : {60, 110, 320, 570}, g : {30, 60, 85},
-             gsh : {-1, 10, 45}, glass : {"ok", "nil", "dangling"}, frame : {"ok", "nil", "dangling"}]
+WinCases == [ff : {0, 10, 20, 50, 100}, du : {0, 10, 25, 50}, ug : {60, 110, 320, 570}, uf : {60, 110, 320, 570}, g : {0, 30, 60, 85, 100},
+             gsh : {-1, 0, 10, 45, 100}, glass : {"ok", "nil", "dangling"}, frame : {"ok", "nil", "dangling"}]
 NoCase == [bounds |-> "-"]
 Init == \/ (phase = "wall" /\ c \in Cases /\ w = NoCase)
         \/ (phase = "win" /\ w \in WinCases /\ c = NoCase)
